@@ -1,5 +1,5 @@
 SOURCE_COMMITS = []  # no guarded hook commits: instrumentation is harness-side only
-FIX_COMMITS = ["72224cf", "5e98ecd", "2300819", "45660fa", "ac83a8e", "f5d3225", "01d6c3c"]
+FIX_COMMITS = ["72224cf", "5e98ecd", "2300819", "45660fa", "ac83a8e", "f5d3225", "01d6c3c", "044fec0"]
 NOTES = "Runtime monitoring of the real repid code; see DESIGN.md. Verdicts are 'held on the executions produced', never proofs."
 NOT_APPLICABLE = {}
 CHECKS = {
@@ -37,6 +37,13 @@ CHECKS = {
         "text": "Jobs with ttl in {1,1.5,4,3600,none} are delivered to a real Worker at E-1s, E-1us, E, E+1us, E+1s (clock stepped to the exact instant) as immediate, delayed (T<E, T>E), retried (back-off inside / across E) and recurring (clock restarted) messages on three brokers. Executed => start <= expiry carried by the delivered message; dead-lettered without failure => first instant it is seen dead > E (probe at every loop iteration, so the boundary is exact at zero latency); dead-lettered => returned by a DEAD consumer.",
         "note": "Virtual time; fakes; redis instants approximate (priority polling sleeps) so its allowance is 0.35 s.",
         "ref": "DESIGN.md 5/C12",
+    },
+    "C15": {
+        "level": "exploration",
+        "technique": "runtime monitoring: order oracle over the recorded delivery sequence of uniquely identified messages (enqueue order, returns)",
+        "text": "Uniquely numbered messages of one priority, with own/foreign topic mixes, backlogs shorter and longer than the Redis fetch window (1..60, and a steady state that keeps >= 12 waiting for 120 rounds), are consumed by one consumer in consume-all, steady-state and reject-and-continue modes on the three brokers; the delivered sequence of never-returned messages must be strictly increasing in enqueue order, nothing may starve, and a rejected message must come back before anything enqueued after its return.",
+        "note": "Virtual time; fakes (RabbitMQ FIFO-per-priority and requeue-to-original-position are server rules of the fake); single priority per run.",
+        "ref": "DESIGN.md 5/C15",
     },
     "C19": {
         "level": "exploration",
